@@ -241,7 +241,7 @@ func readOracles(db *clover.DB, q QSpec, bigIntsAway bool) (fails []string) {
 				lo = len(full)
 			}
 			hi := len(full)
-			if limit >= 0 && lo+limit < hi {
+			if limit >= 0 && limit < hi-lo {
 				hi = lo + limit
 			}
 			if !sameSeq(all, full[lo:hi]) {
